@@ -801,4 +801,131 @@ theorem render_ref_nameChars (ca ra : Bool) (c r : Nat) (hc : c < 16384) :
       omega
     omega
 
+/-! ### fuel: the loop never runs out, never fails -/
+
+theorem copyQuoted_length (q : Char) (s : List Char) : (copyQuoted q s).2.length ≤ s.length := by
+  induction s with
+  | nil => simp [copyQuoted]
+  | cons c cs ih =>
+    simp only [copyQuoted]
+    split
+    · simp
+    · simp only [List.length_cons]; omega
+
+theorem dropWhile_length {α} (p : α → Bool) (l : List α) : (l.dropWhile p).length ≤ l.length := by
+  induction l with
+  | nil => simp
+  | cons x xs ih =>
+    simp only [List.dropWhile]
+    split
+    · simp only [List.length_cons]; omega
+    · simp
+
+/-- with fuel ≥ length the loop returns `ok` -/
+theorem replaceGo_ok (d : Int × Int) (f : Nat) : ∀ s : List Char, s.length ≤ f → ∃ r, replaceGo d f s = .ok r := by
+  induction f with
+  | zero =>
+    intro s hs
+    have : s = [] := List.eq_nil_of_length_eq_zero (by omega)
+    subst this; exact ⟨[], rfl⟩
+  | succ f ih =>
+    intro s hs
+    cases s with
+    | nil => exact ⟨[], rfl⟩
+    | cons c cs =>
+      simp only [List.length_cons] at hs
+      rw [replaceGo]
+      split
+      · obtain ⟨r, hr⟩ := ih (copyQuoted c cs).2 (by have := copyQuoted_length c cs; omega)
+        rw [hr]; exact ⟨_, rfl⟩
+      · split
+        · obtain ⟨r, hr⟩ := ih (cs.dropWhile isNameChar) (by have := dropWhile_length isNameChar cs; omega)
+          simp only [hr]; exact ⟨_, rfl⟩
+        · obtain ⟨r, hr⟩ := ih cs (by omega)
+          rw [hr]; exact ⟨_, rfl⟩
+
+/-- more fuel does not change a successful result -/
+theorem replaceGo_mono (d : Int × Int) (f : Nat) : ∀ (s r : List Char), replaceGo d f s = .ok r →
+    replaceGo d (f + 1) s = .ok r := by
+  induction f with
+  | zero =>
+    intro s r h
+    cases s with
+    | nil => simpa [replaceGo] using h
+    | cons c cs => simp [replaceGo] at h
+  | succ f ih =>
+    intro s r h
+    cases s with
+    | nil => simpa [replaceGo] using h
+    | cons c cs =>
+      rw [replaceGo] at h ⊢
+      split at h
+      · rename_i hq
+        rw [if_pos hq]
+        cases h1 : replaceGo d f (copyQuoted c cs).2 with
+        | ok rest => rw [h1] at h; rw [ih _ _ h1]; exact h
+        | err e => rw [h1] at h; cases h
+        | panic e => rw [h1] at h; cases h
+        | outOfFuel => rw [h1] at h; cases h
+      · rename_i hq
+        rw [if_neg hq]
+        split at h
+        · rename_i hn
+          rw [if_pos hn]
+          cases h1 : replaceGo d f (cs.dropWhile isNameChar) with
+          | ok rest => simp only [h1] at h; simp only [ih _ _ h1]; exact h
+          | err e => simp only [h1] at h; cases h
+          | panic e => simp only [h1] at h; cases h
+          | outOfFuel => simp only [h1] at h; cases h
+        · rename_i hn
+          rw [if_neg hn]
+          cases h1 : replaceGo d f cs with
+          | ok rest => rw [h1] at h; rw [ih _ _ h1]; exact h
+          | err e => rw [h1] at h; cases h
+          | panic e => rw [h1] at h; cases h
+          | outOfFuel => rw [h1] at h; cases h
+
+theorem replaceGo_mono' (d : Int × Int) (f k : Nat) (s r : List Char) (h : replaceGo d f s = .ok r) :
+    replaceGo d (f + k) s = .ok r := by
+  induction k with
+  | zero => exact h
+  | succ k ih => exact replaceGo_mono d (f + k) s r ih
+
+/-- any sufficient fuel gives the result of `replace_cell_names` -/
+theorem replaceGo_fuel (d : Int × Int) (f : Nat) (s : List Char) (hf : s.length ≤ f) :
+    replaceGo d f s = replaceCellNames s d := by
+  unfold replaceCellNames
+  obtain ⟨r, hr⟩ := replaceGo_ok d s.length s (Nat.le_refl _)
+  obtain ⟨k, rfl⟩ : ∃ k, f = s.length + k := ⟨f - s.length, by omega⟩
+  rw [hr, replaceGo_mono' d s.length k s r hr]
+
+/-! ### the `formulas` table -/
+
+theorem getElem?_set_self' {α} (l : List α) (i : Nat) (a : α) (h : i < l.length) : (l.set i a)[i]? = some a := by
+  simp [h]
+
+theorem Table.lookup_store_same (t : Table) (si : Nat) (g : Group) : (t.store si g).lookup si = some g := by
+  unfold Table.store Table.lookup
+  by_cases h : t.length ≤ si
+  · rw [if_pos h, getElem?_set_self' _ _ _ (by simp; omega)]
+  · rw [if_neg h, getElem?_set_self' _ _ _ (by omega)]
+
+theorem Table.lookup_store_ne (t : Table) (si sj : Nat) (g : Group) (hne : si ≠ sj) :
+    (t.store sj g).lookup si = t.lookup si := by
+  unfold Table.store Table.lookup
+  by_cases h : t.length ≤ sj
+  · rw [if_pos h, List.getElem?_set_ne (Ne.symm hne)]
+    by_cases h2 : si < t.length
+    · rw [List.getElem?_append_left h2]
+    · rw [List.getElem?_append_right (by omega)]
+      have e : t[si]? = none := List.getElem?_eq_none (by omega)
+      rw [e]
+      cases h3 : (List.replicate (sj + 1 - t.length) (none : Option Group))[si - t.length]? with
+      | none => rfl
+      | some v =>
+        have := List.mem_of_getElem? h3
+        rw [List.mem_replicate] at this
+        rw [this.2]
+  · rw [if_neg h, List.getElem?_set_ne (Ne.symm hne)]
+
 end SharedFormula
